@@ -168,49 +168,78 @@ func c02R1R4(c *Ctx) {
 			r := ErrFlow(g, ErrFlowOpts{})
 			c.Check(R1, tn+"|dispatch-error-returned", g.Pos(), r.OK, r.How+r.Detail)
 		}
-		// R4(b): permit released at the dispatch and at the select; held at storage effects after the wait
-		ends, starts := CallsTo(T, nEnd), CallsTo(T, nStart)
-		var blockers []ssa.Instruction
-		for _, g := range goCalls {
-			blockers = append(blockers, g.(ssa.Instruction))
-		}
-		AllInstrs(T, func(in ssa.Instruction) {
-			if s, ok := in.(*ssa.Select); ok && s.Blocking {
-				blockers = append(blockers, s)
+	}
+	// R4(b) for every function of the package that receives a *LimitedRegion
+	nfns := 0
+	for _, f := range c.P.FuncsOfPkg("") {
+		for _, prm := range f.Params {
+			if strings.HasSuffix(prm.Type().String(), "syncutil.LimitedRegion") {
+				nfns++
+				c02PermitTypestate(c, f)
 			}
-		})
-		for _, b := range blockers {
-			ok := MustPass(b, newCut().Calls(ends))
-			for _, s := range starts {
-				if Reachable(s.(ssa.Instruction), b) && !MustPassBetween(s.(ssa.Instruction), b, newCut().Calls(ends)) {
-					ok = false
-				}
-			}
-			c.Check(R4, tn+"|released-at:"+instrLabel(b), b.Pos(), ok,
-				ifelse(ok, "region.End() precedes the blocking operation on every path with no Start in between",
-					"the limiter permit may still be held at this blocking operation (with Concurrency=1 the copy deadlocks)"))
 		}
-		// after an End, storage effects need a successful Start
-		var startOK []Edge
+	}
+	if nfns < 2 {
+		c.LostAnchor(R4, "functions with a *syncutil.LimitedRegion parameter (expected the traversal closure and the ExtendedCopyGraph closure)")
+	}
+}
+
+// c02PermitTypestate: in a function running under a limiter permit, every
+// blocking operation (a call that reaches syncutil.Go, a blocking select)
+// happens in the released state, and storage effects after a release need a
+// successful re-acquire.
+func c02PermitTypestate(c *Ctx, T *ssa.Function) {
+	const R4 = "C02.R4.permit-typestate"
+	tn := FnName(T)
+	ends, starts := CallsTo(T, nEnd), CallsTo(T, nStart)
+	var blockers []ssa.Instruction
+	for _, call := range Calls(T, func(string) bool { return true }) {
+		if _, isDefer := call.(*ssa.Defer); isDefer {
+			continue
+		}
+		if CalleeName(call) == nGo {
+			blockers = append(blockers, call.(ssa.Instruction))
+		} else if g := StaticCallee(call); g != nil && inModule(g) && reachesCall(g, 3, func(n string, _ ssa.CallInstruction) bool { return n == nGo }) {
+			blockers = append(blockers, call.(ssa.Instruction))
+		}
+	}
+	AllInstrs(T, func(in ssa.Instruction) {
+		if s, ok := in.(*ssa.Select); ok && s.Blocking {
+			blockers = append(blockers, s)
+		}
+	})
+	for _, b := range blockers {
+		ok := MustPass(b, newCut().Calls(ends))
 		for _, s := range starts {
-			if e := ErrOf(s); e != nil {
-				ne, _, _ := NilTests(T, Aliases(e))
-				startOK = append(startOK, ne...)
+			if Reachable(s.(ssa.Instruction), b) && !MustPassBetween(s.(ssa.Instruction), b, newCut().Calls(ends)) {
+				ok = false
 			}
 		}
-		for _, e := range ends {
-			for _, p := range storageEffects(T) {
-				if p == e || !Reachable(e.(ssa.Instruction), p.(ssa.Instruction)) {
-					continue
-				}
-				if CalleeName(p) == nGo {
-					continue
-				}
-				ok := MustPassBetween(e.(ssa.Instruction), p.(ssa.Instruction), newCut().Edges(startOK...))
-				c.Check(R4, tn+"|held-at:"+CalleeName(p), p.Pos(), ok,
-					ifelse(ok, "a successful region.Start() lies between region.End() and this storage effect",
-						"storage effect reachable after region.End() without re-acquiring the permit (concurrency bound exceeded)"))
+		c.Check(R4, tn+"|released-at:"+instrLabel(b), b.Pos(), ok,
+			ifelse(ok, "region.End() precedes the blocking operation on every path with no Start in between",
+				"the limiter permit may still be held at this blocking operation (with Concurrency=1 the copy deadlocks)"))
+	}
+	// after an End, storage effects need a successful Start
+	var startOK []Edge
+	for _, s := range starts {
+		if e := ErrOf(s); e != nil {
+			ne, _, _ := NilTests(T, Aliases(e))
+			startOK = append(startOK, ne...)
+		}
+	}
+	isBlocker := map[ssa.Instruction]bool{}
+	for _, b := range blockers {
+		isBlocker[b] = true
+	}
+	for _, e := range ends {
+		for _, p := range storageEffects(T) {
+			if p == e || isBlocker[p.(ssa.Instruction)] || !Reachable(e.(ssa.Instruction), p.(ssa.Instruction)) {
+				continue
 			}
+			ok := MustPassBetween(e.(ssa.Instruction), p.(ssa.Instruction), newCut().Edges(startOK...))
+			c.Check(R4, tn+"|held-at:"+CalleeName(p), p.Pos(), ok,
+				ifelse(ok, "a successful region.Start() lies between region.End() and this storage effect",
+					"storage effect reachable after region.End() without re-acquiring the permit (concurrency bound exceeded)"))
 		}
 	}
 }
@@ -222,6 +251,9 @@ func storageEffects(fn *ssa.Function) []ssa.CallInstruction {
 			continue
 		}
 		n := CalleeName(call)
+		if cc := call.Common(); cc.IsInvoke() && isFieldLoad(cc.Value, "Cache") {
+			continue // the in-memory cache is neither a source read nor a destination operation
+		}
 		if isPushEffect(call) || strings.HasSuffix(n, ").Exists") || strings.HasSuffix(n, ").Fetch") {
 			out = append(out, call)
 		}
@@ -543,6 +575,10 @@ func c02Monitored(call ssa.CallInstruction) (bool, []string) {
 	if call.Common().Signature() == nil || ErrResultIndex(call.Common().Signature()) < 0 {
 		return false, nil
 	}
+	if cc := call.Common(); cc.IsInvoke() && isFieldLoad(cc.Value, "Cache") {
+		// the proxy's cache is best-effort: on a cache failure the node is copied from the source instead
+		return false, nil
+	}
 	switch {
 	case n == "(io.Closer).Close":
 		return false, nil
@@ -708,5 +744,6 @@ var c02Mutants = []Mutant{
 	{Name: "go-returns-nil", File: "internal/syncutil/limit.go", Old: "\treturn context.Cause(ctx)", New: "\t_ = context.Cause(ctx)\n\treturn nil", Expect: "C02.R3.go-forwards-first-error"},
 	{Name: "wait-skipped-on-committed", File: "copy.go", Old: "\t\t\t\tif committed {\n\t\t\t\t\treturn fmt.Errorf(\"%s: %s: successor not committed\", desc.Digest, node.Digest)\n\t\t\t\t}", New: "\t\t\t\tif committed {\n\t\t\t\t\tcontinue\n\t\t\t\t}", Expect: "C02.R1"},
 	{Name: "push-error-dropped", File: "copy.go", Old: "\tif err != nil && !errors.Is(err, errdef.ErrAlreadyExists) {\n\t\treturn newCopyError(\"Push\", CopyErrorOriginDestination, err)\n\t}", New: "\tif err != nil && !errors.Is(err, errdef.ErrAlreadyExists) && !errors.Is(err, errdef.ErrNotFound) {\n\t\treturn newCopyError(\"Push\", CopyErrorOriginDestination, err)\n\t}", Expect: "C02.R3"},
+	{Name: "extcopy-no-region-end", File: "extendedcopy.go", Old: "\t\tregion.End()\n\t\tif err := copyGraph(", New: "\t\tif err := copyGraph(", Expect: "C02.R4.permit-typestate"},
 	{Name: "start-dropped-after-wait", File: "copy.go", Old: "\t\t\tif err := region.Start(); err != nil {\n\t\t\t\treturn err\n\t\t\t}\n\t\t}\n\n\t\texists, err = proxy.Cache.Exists(ctx, desc)", New: "\t\t}\n\n\t\texists, err = proxy.Cache.Exists(ctx, desc)", Expect: "C02.R4.permit-typestate"},
 }
